@@ -1,6 +1,11 @@
 package checks
 
-import "strings"
+import (
+	"bytes"
+	"strings"
+
+	"verif/mc/synt"
+)
 
 // c06PanicClass names the narrow family of a panic, or "" when it matches
 // no recorded family (then it stays a plain violation).
@@ -10,7 +15,33 @@ func c06PanicClass(stage, kind, site, msg string, g c06Cfg, src []byte) string {
 	if strings.Contains(msg, "range function continued iteration") && g.Early && stage == c06Entries[g.Entry] {
 		return "yield-after-consumer-stopped-" + c06Entries[g.Entry]
 	}
+	consumer := stage != c06Entries[g.Entry]
+	// RecoverErrors: "case x (" / "case x in (" at the end of input is
+	// accepted with a CaseItem that has no pattern; CaseItem.Pos indexes
+	// Patterns[0], so every consumer that asks for positions panics.
+	if consumer && g.Rec > 0 && kind == "index" && site == "syntax.CaseItem.Pos" && bytes.Contains(src, []byte("case")) {
+		return "recovered-case-item-without-patterns"
+	}
+	// zsh: a here-document word followed by "[" starts a subscript; lexing
+	// it crosses the newline and reads here-document bodies while the
+	// redirection's own Word is still nil.
+	if !consumer && kind == "nil-deref" && site == "syntax.Parser.unquotedWordBytes" && synt.Variants[g.Lang].Name == "zsh" && c06HdocThenBracket(src) {
+		return "zsh-heredoc-word-subscript-crosses-newline"
+	}
 	return ""
+}
+
+// c06HdocThenBracket: "<<" followed, before the next newline, by "[" and
+// then a newline somewhere after it.
+func c06HdocThenBracket(src []byte) bool {
+	i := bytes.Index(src, []byte("<<"))
+	if i < 0 {
+		return false
+	}
+	rest := src[i+2:]
+	j := bytes.IndexByte(rest, '[')
+	nl := bytes.IndexByte(rest, '\n')
+	return j >= 0 && nl > j
 }
 
 func c06HangClass(where string, src []byte) string { return "" }
